@@ -456,14 +456,21 @@ func (h *Handler) RemoveAllowedRoute(network *net.IPNet) bool {
 	h.routesMu.Lock()
 	defer h.routesMu.Unlock()
 
+	// Remove every entry for this network: a dynamic route that was updated
+	// (added twice) has two entries, and leaving one behind would keep a
+	// withdrawn network dialable.
 	target := network.String()
-	for i, route := range h.cfg.AllowedRoutes {
+	kept := make([]*net.IPNet, 0, len(h.cfg.AllowedRoutes))
+	removed := false
+	for _, route := range h.cfg.AllowedRoutes {
 		if route.String() == target {
-			h.cfg.AllowedRoutes = append(h.cfg.AllowedRoutes[:i], h.cfg.AllowedRoutes[i+1:]...)
-			return true
+			removed = true
+			continue
 		}
+		kept = append(kept, route)
 	}
-	return false
+	h.cfg.AllowedRoutes = kept
+	return removed
 }
 
 // AllowedRouteCount returns the number of allowed routes.
